@@ -9,6 +9,7 @@ import (
 
 	"github.com/stevenh/tracktools/pkg/convert"
 	"github.com/stevenh/tracktools/pkg/laptimer"
+	"github.com/stevenh/tracktools/pkg/trackaddict"
 	"github.com/tidwall/geodesic"
 	"gonum.org/v1/gonum/interp"
 )
@@ -79,7 +80,13 @@ func cvOptions(toks []string, withStart bool) []convert.Option {
 	}
 	if sd := cvField(toks, "SD"); sd != "-" && withStart {
 		sec, _ := strconv.ParseInt(sd, 10, 64)
-		opts = append(opts, convert.StartDateOpt(time.Unix(sec, 0).UTC()))
+		d := time.Unix(sec, 0).UTC()
+		if sl := cvField(toks, "SL"); sl != "" && sl != "-" {
+			// the same instant carried in another location
+			off, _ := strconv.Atoi(sl)
+			d = d.In(time.FixedZone("sl", off))
+		}
+		opts = append(opts, convert.StartDateOpt(d))
 	}
 	return opts
 }
@@ -158,7 +165,21 @@ func dumpDB(db *laptimer.DB) string {
 	return b.String()
 }
 
-func cvConvert(toks []string, withStart bool) string {
+// cvDecoy is another session (other vehicle, other day, OBD readings): what a converter or a
+// session went through before must not show in the conversion under test.
+const cvDecoy = "# Vehicle: Decoy Car\n" +
+	"Time,UTC Time,Lap,GPS_Update,Latitude,Longitude,Altitude (m),Speed (Km/h),Heading,Accuracy (m),OBD_Update,Engine Speed (RPM) *OBD\n" +
+	"0.100,1000000000.100,0,1,10.0000000,20.0000000,1.0,50.0,10.0,3.0,1,1000\n" +
+	"# Lap 0: 00:00:01.000\n" +
+	"0.200,1000000001.200,1,1,10.0001000,20.0000000,1.0,50.0,10.0,3.0,1,2000\n" +
+	"0.700,1000000001.700,1,1,10.0002000,20.0000000,1.0,50.0,10.0,3.0,0,2000\n" +
+	"1.200,1000000002.200,1,1,10.0003000,20.0000000,1.0,50.0,10.0,3.0,1,3000\n" +
+	"# Lap 1: 00:00:02.000\n" +
+	"0.300,1000000003.300,2,1,10.0004000,20.0000000,1.0,50.0,10.0,3.0,1,4000\n" +
+	"# Lap 2: 00:00:03.000\n" +
+	"0.400,1000000004.400,3,1,10.0005000,20.0000000,1.0,50.0,10.0,3.0,1,5000\n"
+
+func cvConvert(toks []string, withStart bool, shared *trackaddict.Session) (string, *trackaddict.Session) {
 	var out string
 	// the decoder builds instants with time.Unix, i.e. in the process's local zone: vary it
 	if z := cvField(toks, "Z"); z != "" && z != "0" {
@@ -167,17 +188,33 @@ func cvConvert(toks []string, withStart bool) string {
 		time.Local = time.FixedZone("verif", off)
 		defer func() { time.Local = old }()
 	}
+	sess := shared
 	cls, _ := classify(func() error {
-		c, sess := taDecode([]byte(unhexStr(cvField(toks, "X"))))
-		if c == "panic" {
-			panic("decode")
-		}
-		if c != "ok" {
-			return fmt.Errorf("decode")
+		if sess == nil {
+			var c string
+			c, sess = taDecode([]byte(unhexStr(cvField(toks, "X"))))
+			if c == "panic" {
+				panic("decode")
+			}
+			if c != "ok" {
+				return fmt.Errorf("decode")
+			}
 		}
 		conv, err := convert.NewTrackAddict(cvOptions(toks, withStart)...)
 		if err != nil {
 			return err
+		}
+		switch cvField(toks, "W") {
+		case "1": // the converter has converted another session before
+			if c, decoy := taDecode([]byte(cvDecoy)); c == "ok" {
+				conv.LapTimer(decoy) //nolint: errcheck
+			}
+		case "2": // the session has been converted before, with the same options but for the start date
+			// (interpolation fills the session's OBD values in place, by design: the predictor is the same)
+			other, err := convert.NewTrackAddict(cvOptions(toks, !withStart)...)
+			if err == nil {
+				other.LapTimer(sess) //nolint: errcheck
+			}
 		}
 		db, err := conv.LapTimer(sess)
 		if err != nil {
@@ -187,18 +224,24 @@ func cvConvert(toks []string, withStart bool) string {
 		return nil
 	})
 	if cls != "ok" {
-		return cls
+		return cls, sess
 	}
-	return out
+	return out, sess
 }
 
 func execCV(_ *config, op string) string {
 	toks := strings.Fields(op)
 	switch toks[0] {
 	case "conv":
-		return cvConvert(toks, true)
+		out, _ := cvConvert(toks, true, nil)
+		return out
 	case "shift":
-		return cvConvert(toks, true) + " || " + cvConvert(toks, false)
+		with, sess := cvConvert(toks, true, nil)
+		if cvField(toks, "S") != "1" {
+			sess = nil // S=1: the very same decoded session is converted again, without the start date
+		}
+		without, _ := cvConvert(toks, false, sess)
+		return with + " || " + without
 	}
 	return "bad"
 }
@@ -395,11 +438,23 @@ func genCV(cfg *config, r *rng, i int, s *sink) string {
 	} else if r.chance(1, 5) {
 		sd = fmt.Sprint(int64(r.rangeInt(0, 40000)) * 86400)
 	}
+	if sd != "-" && r.chance(1, 6) {
+		// a start date is an instant: it may carry a time of day
+		v, _ := strconv.ParseInt(sd, 10, 64)
+		sd = fmt.Sprint(v + int64(pick(r, []int{1, 3600, 43200, 86399, 7 * 3600})))
+	}
+	sl := "-"
+	if sd != "-" && r.chance(1, 4) {
+		sl = fmt.Sprint(pick(r, []int{7200, -14400, 19800, 50400, -43200}))
+	}
+	warm := pick(r, []int{0, 0, 0, 1, 1, 2})
+	share := b01(r.chance(1, 3))
+	s.count(fmt.Sprintf("cv.warm.%d", warm))
 	s.count("cv.op." + op)
 	s.count("cv.pred." + pr)
 	zone := pick(r, []int{0, 0, 7200, -28800, 19800, 50400, -43200, 3600})
 	s.count(fmt.Sprintf("cv.zone.%d", zone))
-	return fmt.Sprintf("%s Z=%d T=%s V=%s G=%s N=%s DS=%d PF=%d SD=%s PR=%s O=%s X=%s", op, zone,
+	return fmt.Sprintf("%s Z=%d W=%d S=%s SL=%s T=%s V=%s G=%s N=%s DS=%d PF=%d SD=%s PR=%s O=%s X=%s", op, zone, warm, share, sl,
 		hexStr(pick(r, []string{"Goodwood", "", "Brands <Hatch>"})), hexStr(pick(r, []string{"", "", "'19 McLaren 720s"})),
 		hexTags(r), hexStr(pick(r, []string{"", "a note", "line1\nline2"})), r.intn(4), r.intn(5), sd, pr, oracle, hexStr(text))
 }
